@@ -86,6 +86,8 @@ func init() {
 			Sampled  bool         `json:"sampled"`
 			Previous []uint64     `json:"previous"`
 			Obs      []uint64     `json:"observations"`
+			K        int          `json:"k"`
+			Stride   int          `json:"stride"`
 		}
 		if err := json.Unmarshal(raw, &sc); err != nil {
 			return "bad scenario: " + err.Error()
@@ -124,6 +126,11 @@ func init() {
 				return "VIOLATION reproduced\n" + out
 			}
 			return out + "OK (monotonicity needs the neighbouring point; see the signature)"
+		case sc.K > 0 && sc.Stride > 0:
+			if cl, d := ringRefillHistory("verif_replay_refill", sc.Sampled, sc.K, sc.Stride); cl != "" {
+				return fmt.Sprintf("VIOLATION reproduced: %s: %s", cl, d)
+			}
+			return fmt.Sprintf("ring-refill history sampled=%v k=%d: OK: no finding", sc.Sampled, sc.K)
 		case len(sc.Obs) > 0:
 			id := metrics.AddHistogram("verif_replay", sc.Sampled, nil)
 			for _, period := range [][]uint64{sc.Previous, sc.Obs} {
